@@ -632,6 +632,10 @@ func naturalFailRun(t *rapid.T) {
 		return d
 	}
 	seen("c05", hashStr(p.Main, "natural"))
+	if _, panicked := err.(*renderPanic); panicked {
+		count("render_panicked_natural:"+p.Failing, 1) // a panicking helper panics the render: totality is C04's subject
+		return
+	}
 	if err == nil {
 		violate(t, "C05", "failing-operation-fails-render", "c05:natural-swallowed:"+p.Failing, det)
 		return
